@@ -830,11 +830,11 @@ static int vnadata_save_common(vnadata_t *vdp, FILE *fp, const char *filename,
      * If no formats have been given, default to "ri".
      */
     if (vdip->vdi_format_count == 0) {
+	format_defaulted = true;
 	if (_vnadata_set_simple_format(vdip, type,
 		    VNADATA_FORMAT_REAL_IMAG) == -1) {
 	    goto out;
 	}
-	format_defaulted = true;
     }
 
     /*
